@@ -8,6 +8,8 @@ import (
 	"path/filepath"
 	"strings"
 	"sync/atomic"
+	"syscall"
+	"time"
 
 	r "github.com/Trisia/randomness"
 	"github.com/Trisia/randomness/detect"
@@ -423,7 +425,7 @@ func Run(ctx *common.Ctx) int {
 	for l := 0; l <= 64; l++ {
 		lens = append(lens, l)
 	}
-	lens = append(lens, 125000, 125001)
+	lens = append(lens, 125000, 125001, 4095, 4096, 4097, 32768, 65535, 65536, 65537, 131071, 131072, 131073, 262144)
 	for _, l := range lens {
 		data := enum.FillerBytes(l, uint64(ctx.Seed)+uint64(l)+500)
 		fn := filepath.Join(dir, fmt.Sprintf("f%d.bin", l))
@@ -437,6 +439,69 @@ func Run(ctx *common.Ctx) int {
 		}
 		_ = os.Remove(fn)
 	}
+	// a "file" may be a named pipe or a device that hands its contents over in pieces (a Read returns fewer bytes
+	// than asked for before the end): every listed way of cutting the contents into 1..3 pieces
+	pipeRuns := 0
+	type cut struct {
+		l      int
+		pieces []int
+	}
+	cuts := []cut{{2500, []int{2500}}, {2500, []int{1, 2499}}, {2500, []int{1500, 1000}}, {2500, []int{2499, 1}}, {2500, []int{512, 512, 1476}},
+		{200000, []int{65536, 134464}}, {200000, []int{65537, 134463}}, {200000, []int{100000, 100000}}, {200000, []int{1, 65535, 134464}}, {125000, []int{124999, 1}}}
+	for ci, c := range cuts {
+		data := enum.FillerBytes(c.l, uint64(ctx.Seed)+uint64(ci)+900)
+		fn := filepath.Join(dir, fmt.Sprintf("pipe%d", ci))
+		if err := syscall.Mkfifo(fn, 0o600); err != nil {
+			ctx.Note("named pipes are not available here (%v): the piecewise file family is skipped", err)
+			break
+		}
+		wdone := make(chan struct{})
+		go func() {
+			defer close(wdone)
+			w, err := os.OpenFile(fn, os.O_WRONLY, 0)
+			if err != nil {
+				return
+			}
+			defer w.Close()
+			off := 0
+			for pi, n := range c.pieces {
+				if pi > 0 {
+					time.Sleep(60 * time.Millisecond) // the reader has long consumed the previous piece
+				}
+				if _, err := w.Write(data[off : off+n]); err != nil {
+					return // the reader closed early
+				}
+				off += n
+			}
+		}()
+		type res struct {
+			bits []bool
+			pv   interface{}
+		}
+		rch := make(chan res, 1)
+		go func() {
+			var got []bool
+			pv := common.Catch(func() { got = r.ReadGroup(fn) })
+			rch <- res{got, pv}
+		}()
+		select {
+		case x := <-rch:
+			<-wdone
+			pipeRuns++
+			atomic.AddInt64(&evals, 1)
+			if x.pv != nil || common.BitString(x.bits) != common.BitString(refmodel.Bits(data)) {
+				ctx.Report("ReadGroup/pieces", fmt.Sprintf("ReadGroup of a named pipe delivering %d bytes in pieces %v yields %d bits, the expansion of the bytes has %d (panic=%v)", c.l, c.pieces, len(x.bits), 8*c.l, x.pv), map[string]interface{}{"bytes": c.l, "pieces": c.pieces})
+			}
+		case <-time.After(2 * time.Minute):
+			ctx.Note("ReadGroup on a named pipe (%d bytes in pieces %v) has not returned after 2 minutes; skipped", c.l, c.pieces)
+			// unblock both ends
+			if f, err := os.OpenFile(fn, os.O_RDWR, 0); err == nil {
+				f.Close()
+			}
+		}
+		_ = os.Remove(fn)
+	}
+	samples = append(samples, map[string]interface{}{"family": "file loader over a named pipe", "runs": pipeRuns, "pieces": "2500 / 125000 / 200000 bytes cut into 1..3 pieces (cuts at 1, 512, 1500, 65535, 65536, 65537, 100000, len-1)"})
 	for v := 0; v < 65536; v++ {
 		d := []byte{byte(v >> 8), byte(v)}
 		if common.BitString(r.B2bitArr(d)) != common.BitString(refmodel.Bits(d)) {
@@ -452,7 +517,7 @@ func Run(ctx *common.Ctx) int {
 	cov := common.Coverage{
 		"evaluations":         int(evals),
 		"distinct_nontrivial": distinct.Count(),
-		"rule": "bytes vs bits bit-identical for every byte-oriented entry point x every documented parameter on every 1-,2-(3-)byte string, byte patterns repeated to 16/128/1121/2500 bytes and fillers to 125000 bytes; registry runners vs entry points with the standard's defaults bit-identical incl. Pass; registry order by name and by reference semantics; Round15/Round12 vs registry; ReadGroup on every file length 0..64, 125000, 125001; " +
+		"rule": "bytes vs bits bit-identical for every byte-oriented entry point x every documented parameter on every 1-,2-(3-)byte string, byte patterns repeated to 16/128/1121/2500 bytes and fillers to 125000 bytes; registry runners vs entry points with the standard's defaults bit-identical incl. Pass; registry order by name and by reference semantics; Round15/Round12 vs registry; ReadGroup on every file length 0..64, around 4096 / 32768 / 65536 / 131072 / 262144, 125000, 125001, and over a named pipe that delivers the contents in 1..3 pieces; " +
 			"distinct = distinct (entry point pair, first P value) pairs",
 		"samples":    samples,
 		"exhaustive": true,
